@@ -256,3 +256,14 @@ Proof.
     + constructor; [|constructor]. unfold is_byte, wrapu8. lia.
     + cbn [length]. lia.
 Qed.
+
+(* a successful read consumes at least one byte *)
+Lemma uvarint_go_rest_shorter :
+  forall buf i x s ux r, uvarint_go i x s buf = UOk ux r -> (length r < length buf)%nat.
+Proof.
+  induction buf as [|b rr IH]; intros i x s ux r U; [discriminate|].
+  cbn [uvarint_go] in U. destruct (Nat.eqb i 10); [discriminate|].
+  destruct (b <? 128).
+  - destruct (Nat.eqb i 9 && (b >? 1)); [discriminate|]. injection U as _ <-. cbn [length]. lia.
+  - apply IH in U. cbn [length]. lia.
+Qed.
